@@ -83,6 +83,8 @@ type BlockPipeline struct {
 	wg              sync.WaitGroup
 	mu              sync.Mutex   // protects Start/Stop
 	submitMu        sync.RWMutex // protects Submit against concurrent Stop
+	// submitSem serializes sequence allocation with the send on submitChan
+	submitSem chan struct{}
 }
 
 // NewBlockPipeline creates a new BlockPipeline using functional options.
@@ -130,6 +132,7 @@ func (p *BlockPipeline) Start(ctx context.Context) error {
 	// Create channels
 	bufSize := p.config.PrefetchBufferSize
 	p.submitChan = make(chan *BlockItem, bufSize)
+	p.submitSem = make(chan struct{}, 1)
 	p.decodedChan = make(chan *BlockItem, bufSize)
 	p.resultsChan = make(chan *BlockItem, bufSize)
 	p.errorsChan = make(chan error, bufSize)
@@ -225,9 +228,20 @@ func (p *BlockPipeline) Submit(ctx context.Context, blockType uint, rawCbor []by
 		return ErrPipelineStopped
 	}
 
-	// Allocate sequence number only once, then send.
-	// We use a single blocking select to avoid sequence gaps that would occur
-	// if we allocated in a non-blocking attempt that failed.
+	// Sequence numbers must stay dense: the apply stage waits for nextSequence
+	// and never skips one. A sequence number is therefore only consumed by an
+	// item that submitChan accepted. Submitters take turns (submitSem) so that
+	// a submission which gives up can hand its number back before anyone else
+	// allocates one.
+	select {
+	case p.submitSem <- struct{}{}:
+	case <-ctx.Done():
+		return ctx.Err()
+	case <-p.ctx.Done():
+		return ErrPipelineStopped
+	}
+	defer func() { <-p.submitSem }()
+
 	item := NewBlockItem(blockType, rawCbor, tip, p.sequenceCounter.Add(1)-1)
 	if verifEnabled {
 		verifTrace("alloc", item, 0)
@@ -244,13 +258,15 @@ func (p *BlockPipeline) Submit(ctx context.Context, blockType uint, rawCbor []by
 		if verifEnabled {
 			verifTrace("sub_fail", item, 0)
 		}
-		// Context cancelled while waiting - sequence gap is acceptable
-		// because this typically means shutdown.
+		// Context cancelled while waiting (backpressure): return the
+		// sequence number so that later submissions are not stalled.
+		p.sequenceCounter.Add(^uint64(0))
 		return ctx.Err()
 	case <-p.ctx.Done():
 		if verifEnabled {
 			verifTrace("sub_fail", item, 0)
 		}
+		p.sequenceCounter.Add(^uint64(0))
 		return ErrPipelineStopped
 	}
 }
